@@ -106,11 +106,9 @@ Merge(tb, i, acc, flags) ==
        THEN Merge(tb, i + 1, [acc EXCEPT ![Len(acc)] = tb[i]], flags)          \* the deeper frame replaces the other
        ELSE Merge(tb, i + 1, Append(acc, tb[i]), flags)
 
-\* the unit a chained traceback starts in = the unit that caught it: its leading frames
-RECURSIVE Leading(_, _)
-Leading(tb, i) == IF i > Len(tb) \/ tb[i].kind \in {"module"} THEN i - 1
-                  ELSE IF i > 1 /\ (tb[i].name # tb[1].name \/ tb[i].file # tb[1].file) THEN i - 1
-                  ELSE Leading(tb, i + 1)
+\* a chained traceback starts with the activation that caught the exception: that one frame is affected
+\* (deeper activations of an equally named function are entered through a call and named properly)
+Leading(tb, i) == IF Len(tb) = 0 \/ tb[1].kind = "module" THEN 0 ELSE 1
 Chained(tb, flags) == IF "chained-ctx-name" \in flags
                       THEN [i \in 1..Len(tb) |-> IF i <= Leading(tb, 1) THEN [tb[i] EXCEPT !.name = Wild, !.file = Wild] ELSE tb[i]]
                       ELSE tb
